@@ -155,3 +155,18 @@ def pyMax : List Int → Option Int
   | a :: t => some (t.foldl max a)
 
 end Cv.Py
+
+namespace Cv.Py
+
+/-- `d[k] = v` on an insertion-ordered `dict` with arbitrary (hashable) keys: an existing key keeps its position -/
+def pyKSet {κ β : Type} [BEq κ] : List (κ × β) → κ → β → List (κ × β)
+  | [], k, v => [(k, v)]
+  | (k', v') :: t, k, v => if k' == k then (k, v) :: t else (k', v') :: pyKSet t k v
+
+/-- `d[k]`; `none` = KeyError -/
+def pyKGet {κ β : Type} [BEq κ] (d : List (κ × β)) (k : κ) : Option β := (d.find? fun p => p.1 == k).map (·.2)
+
+/-- `k in d` -/
+def pyKHas {κ β : Type} [BEq κ] (d : List (κ × β)) (k : κ) : Bool := d.any fun p => p.1 == k
+
+end Cv.Py
